@@ -292,6 +292,109 @@ def files_component(ck, tier, runner):
     ck.sample({"files": [os.path.relpath(f, "/repo") for f in FILES[:5]], "configs": "batch_size in {1,3,7,37,100,512,1000,4096,8192} x partitions {1,2,8} vs batch_size 2048"})
 
 
+def gen_rows(rng, cols, n):
+    rows = []
+    for i in range(n):
+        r = []
+        for name, ty, optional in cols:
+            if optional and rng.below(100) < rng.pick([0, 10, 50, 100]) :
+                r.append(None)
+            elif ty == "int32":
+                r.append(rng.pick([0, 1, -1, 2147483647, -2147483648, rng.below(1000) - 500]))
+            elif ty == "int64":
+                r.append(rng.pick([0, -1, 9223372036854775807, -9223372036854775808, rng.below(10 ** 12) - 5 * 10 ** 11]))
+            elif ty == "double":
+                r.append(rng.pick([0.0, -0.0, 1.5, -2.25, 1e300, float(rng.below(1000)) / 8]))
+            elif ty == "utf8":
+                r.append(rng.pick(["", "a", "é", "twelve bytes", "thirteen byte", "x" * rng.below(40), "中文", "q'\"\n"]))
+            else:
+                r.append(rng.chance(1, 2))
+        rows.append(r)
+    return rows
+
+
+def cell_of(v, ty):
+    import struct as _s
+    if v is None:
+        return None
+    if ty in ("int32", "int64"):
+        return str(v)
+    if ty == "double":
+        return "f64:%016x" % _s.unpack("<Q", _s.pack("<d", v))[0]
+    if ty == "utf8":
+        return "s:" + v
+    return "true" if v else "false"
+
+
+def generated_component(ck, tier, runner):
+    """Files written by tools/pqwrite.py (PLAIN, v1 pages, uncompressed): several row groups, several pages per chunk,
+    NULL patterns from none to all. (i) every page body is decoded by Core/Plain.lean and must give the written values
+    (ties the writer to the model of 'the rows a file encodes'); (ii) the engine must return exactly the written rows
+    under random (batch_size, partitions)."""
+    import pqwrite
+    from sqlutil import Rng, bag
+    comp = "generated_files"
+    rng = Rng(ck.seed * 4447 + 10)
+    d = os.path.join(vlib.ROOT, "scratch", "c10")
+    os.makedirs(d, exist_ok=True)
+    nfiles = 25 if tier == "quick" else 600
+    page_cases = 0
+    for fi in range(nfiles):
+        ncols = 1 + rng.below(4)
+        cols = [(f"c{i}", rng.pick(["int32", "int64", "double", "utf8", "bool", "int32", "int64"]), rng.chance(2, 3)) for i in range(ncols)]
+        nrg = rng.pick([1, 1, 2, 3, 5])
+        rgs = []
+        for _ in range(nrg):
+            n = rng.pick([0, 1, 2, 7, 8, 9, 100, 2047, 2048, 2049, 5000]) if tier != "quick" else rng.pick([0, 1, 7, 9, 100, 2049, 3000])
+            rgs.append({"rows": gen_rows(rng, cols, n), "page_rows": rng.pick([None, 1, 3, 8, 100, 1000])})
+        if sum(len(r["rows"]) for r in rgs) == 0 and nrg == 1:
+            rgs[0]["rows"] = gen_rows(rng, cols, 3)
+        path = os.path.join(d, f"g{fi % 8}.parquet")
+        pqwrite.write_file(path, cols, rgs)
+        # (i) page bodies vs the Lean page model
+        lines, want = [], []
+        for pi, (ty, optional, vals, body) in enumerate(pqwrite.PAGES[:40]):
+            lines.append(f"case {pi} pqpage {ty} {int(optional)} {len(vals)} {body.hex() if body else '-'}")
+            exp = []
+            for v in vals:
+                c = cell_of(v, ty)
+                exp.append("N" if c is None else ("i" + c if ty in ("int32", "int64") else ("i1" if c == "true" else "i0") if ty == "bool" else "f" + str(int(c[4:], 16)) if ty == "double" else "s" + (v.encode().hex() or "-")))
+            want.append("ok " + " ".join(exp) if exp else "ok ")
+        model = vlib.run_model(lines, timeout=120).get("out", {})
+        for pi in range(len(lines)):
+            page_cases += 1
+            if model.get(str(pi), "").strip() != want[pi].strip():
+                ck.violation("generated/page-model-diff", f"Core/Plain.lean decodes a page written by tools/pqwrite.py differently from the written values: {lines[pi][:120]}",
+                             {"correspondence": "Plain.decodePage vs pqwrite", "case": lines[pi][:400], "model": model.get(str(pi), "")[:300], "written": want[pi][:300]}, found_input=False)
+                break
+        # (ii) the engine returns exactly the written rows
+        written = [[cell_of(v, cols[i][1]) for i, v in enumerate(r)] for rg in rgs for r in rg["rows"]]
+        for _ in range(3 if tier == "quick" else 6):
+            b, p = rng.pick([1, 3, 7, 100, 2048, 8192]), rng.pick([1, 2, 8])
+            stmts = [f"SET batch_size TO {b}", f"SET partitions TO {p}", f"SELECT * FROM read_parquet('{path}')", f"SELECT count(*) FROM read_parquet('{path}')"]
+            res = runner.run(stmts, timeout=120)
+            ck.count(comp, 1)
+            ck.nontrivial((fi, b, p))
+            if isinstance(res, dict):
+                ck.violation("generated/crash", f"reading a valid generated Parquet file crashes (batch_size={b}, partitions={p})", {"kind": "crash", "stmts": stmts, "columns": cols, "row_groups": [len(r['rows']) for r in rgs], "result": res})
+                break
+            r = res[2]
+            if "rows" not in r:
+                ck.violation("generated/valid-file-rejected", f"a valid generated Parquet file is rejected: {str(r)[:160]}", {"kind": "impl-vs-oracle", "stmts": stmts, "columns": cols, "row_groups": [len(x['rows']) for x in rgs], "page_rows": [x['page_rows'] for x in rgs]})
+                break
+            same = (r["rows"] == written) if p == 1 else (bag(r["rows"]) == bag(written))
+            if not same or "rows" not in res[3] or res[3]["rows"][0][0] != str(len(written)):
+                import shutil
+                keep = os.path.join(vlib.ROOT, "replays", "C10", f"generated_{fi}.parquet")
+                os.makedirs(os.path.dirname(keep), exist_ok=True)
+                shutil.copy(path, keep)
+                ck.violation("generated/rows-differ", f"read_parquet returns {len(r['rows'])} rows that are not the {len(written)} rows the file encodes (batch_size={b}, partitions={p}, row groups {[len(x['rows']) for x in rgs]}, page rows {[x['page_rows'] for x in rgs]})",
+                             {"kind": "impl-vs-oracle", "file": keep, "stmts": stmts[:3], "columns": cols, "first_engine_rows": r["rows"][:5], "first_written_rows": written[:5], "count": res[3]})
+                break
+    ck.note(comp, "files", nfiles)
+    ck.note(comp, "pages_checked_against_model", page_cases)
+
+
 def main():
     tier = sys.argv[1] if len(sys.argv) > 1 else "quick"
     ck = vlib.Check("C10", tier)
@@ -309,6 +412,7 @@ def main():
     rle_component(ck, tier)
     runner = vlib.SqlRunner()
     try:
+        generated_component(ck, tier, runner)
         files_component(ck, tier, runner)
     finally:
         runner.close()
